@@ -737,7 +737,7 @@ func TestCheck(t *testing.T) {
 		for _, lim := range []int{0, -1, 3, math.MaxInt, math.MaxInt - 1, 1 << 31, 1 << 32} {
 			restore := setLimit(lim)
 			r.Serial(func(w *vkit.W) {
-				for _, text := range ref.ConventionalTexts {
+				for _, text := range append(append([]string{}, ref.ConventionalTexts...), ref.Wrapped("123e4567-e89b-12d3-a456-426614174000", "urn:uuid:123E4567-E89B-12D3-A456-426614174000")...) {
 					for _, rule := range rules {
 						judge(Case{Kind: "text", Text: vkit.B(text), Rule: rule, Limit: lim}, w)
 						w.EvalRandom(vkit.Hash64("W", text, strconv.Itoa(rule), strconv.Itoa(lim)), true)
